@@ -384,11 +384,76 @@ def generic_rules(ctx, module):
         if k in seen:
             continue
         seen.add(k)
+        if fn.kind in ("move_ctor", "move_assign"):
+            _moved_then_swapped(ctx, fn)
         if fn.d.get("rtype", "void") in ("void", "") or fn.kind in ("ctor", "dtor", "move_ctor", "copy_ctor"):
             continue
         ctx.ob("%s.G2" % ctx.prop, L.short(fn)[:110], not L.falls_off_end(fn), fn.loc,
                "a function with a result can reach its end without a return statement (undefined behaviour: the caller "
                "continues with garbage or never returns)", site="%s@falls-off-end" % fn.qname)
+
+
+def _sig_params(sig):
+    """parameter types of a '(T1, T2<...>, ...)' signature string, split at top-level commas"""
+    sig = (sig or "").strip()
+    if sig.startswith("(") and sig.endswith(")"):
+        sig = sig[1:-1]
+    out, depth, cur = [], 0, ""
+    for ch in sig:
+        if ch in "<([":
+            depth += 1
+        elif ch in ">)]":
+            depth -= 1
+        if ch == "," and depth == 0:
+            out.append(cur.strip())
+            cur = ""
+        else:
+            cur += ch
+    if cur.strip():
+        out.append(cur.strip())
+    return out
+
+
+def _moved_then_swapped(ctx, fn):
+    """G3: a move member that finishes by swapping complete states with its source must not first move a member out of
+    the source: swap then hands the moved-from shell to the destination and the real value back to the source"""
+    from . import lib as L
+    from .graph import IG
+    from .facts import strip_cast, walk
+    ig = IG(fn, inline=lambda a, b, c: False)
+    live = ig.live_nodes()
+
+    def is_src(d):
+        d = strip_cast(d)
+        return isinstance(d, dict) and d.get("k") == "p" and d.get("i") == 0
+    swaps = [n for n in ig.ev_nodes() if n.id in live and n.ev["e"] == "call" and n.ev.get("name") == "swap" and
+             any(is_src(a) for a in n.ev.get("args", []))]
+    if not swaps:
+        return
+    for sw in swaps:
+        callee = ig.tu.fns.get(sw.ev.get("cid"))
+        touched = None
+        if callee is not None and callee.has_cfg():
+            touched = set()
+            for _, ev in callee.all_events():
+                for part in list(ev.get("args", []) or []) + [ev.get(k) for k in ("this", "lhs", "rhs", "v")]:
+                    for sd in walk(part):
+                        if isinstance(sd, dict) and sd.get("k") == "f" and sd.get("n"):
+                            touched.add(sd["n"])
+        bad = None
+        for n in ig.ev_nodes():
+            if n.id not in live or n is sw or n.ev["e"] not in ("ctor", "call") or not ig.path_exists(n, sw, strict=False):
+                continue
+            ptypes = _sig_params(n.ev.get("sig"))
+            for i, a in enumerate(n.ev.get("args", [])):
+                a = strip_cast(a)
+                if isinstance(a, dict) and a.get("k") == "f" and is_src(a.get("b")) and i < len(ptypes) and ptypes[i].endswith("&&") and \
+                        (touched is None or a.get("n") in touched):
+                    bad = (n, a.get("n"))
+        ctx.ob("%s.G3" % ctx.prop, L.short(fn)[:110], bad is None, fn.loc,
+               "member %s of the source is moved out at line %s and swap(source) afterwards exchanges it again: the destination "
+               "keeps the moved-from shell, the source gets the value back" % (bad[1] if bad else "", bad[0].line if bad else ""),
+               site="%s@moved-then-swapped" % fn.qname)
 
 
 def run_property(prop, module, tier):
